@@ -36,7 +36,7 @@ def gen_reaction(rng, species, kinds, allow_delay=False, max_order=4, named=True
         params["s1"] = rng.choice(species)
         if kind.startswith("proportional"): params["d"] = rng.choice(species)
     elif kind == "general":
-        pool = general_pool or ["kg*%s", "kg*%s*%s", "kg*%s/(1+%s)", "kg*%s^2/(Kg+%s^2)", "kg+%s*0", "kg*exp(-%s/Kg)", "kg*Heaviside(%s-1.5)", "kg*Max(%s,%s)", "kg*abs(%s-%s)"]
+        pool = general_pool or ["kg*%s", "kg*%s*%s", "kg*%s/(1+%s)", "kg*%s^2/(Kg+%s^2)", "kg+%s*0", "kg*exp(-%s/Kg)", "kg*Heaviside(%s-1.5)", "kg*Max(%s,%s)", "kg*abs(%s-%s)", "kg*(%s-%s)"]   # the last one is signed (a net flux): negative where the second species is in excess
         tpl = rng.choice(pool)
         n = tpl.count("%s")
         if n >= 2 and len(species) >= 2: chosen = tuple(rng.sample(species, 2)) + tuple(rng.choice(species) for _ in range(n - 2))
